@@ -1,15 +1,29 @@
-"""setup_cmd: verify the toolchain and that the anchors resolve (parses /repo)."""
+"""setup_cmd: verify the toolchain, that the anchors resolve (parses /repo), and warm the effect-summary cache
+(/verif/.cache, keyed by a digest of every analysed source file and of the analyser: any edit to /repo or to pva
+invalidates it, so a stale summary can never be used)."""
 import sys
-from .index import Index, AnalysisError
+import time
+
+from .index import AnalysisError, Index
+
 
 def main():
+    t0 = time.time()
     try:
         ix = Index()
     except AnalysisError as e:
         print("ANALYSIS-ERROR setup:", e)
         return 2
     print(f"pva ready: python {sys.version.split()[0]}, {len(ix.modules)} modules, {len(ix.funcs)} functions indexed")
+    try:
+        from .effprops import engine
+        eng = engine(ix)
+        print(f"effect summaries: {len(eng.summaries)} functions, {'cache hit' if getattr(eng, 'from_cache', False) else 'computed'} "
+              f"in {time.time() - t0:.1f}s")
+    except Exception as e:  # the checks recompute on demand; setup must not fail because of the optional cache
+        print(f"effect summaries not pre-computed ({type(e).__name__}: {e}); checks will compute them")
     return 0
+
 
 if __name__ == "__main__":
     sys.exit(main())
